@@ -32,10 +32,8 @@ func permIndex(site int, n int) []int {
 	if MapPermSeed == 0 || n < 2 {
 		return nil
 	}
-	if site >= len(mapVisits) {
-		nv := make([]uint32, site+64)
-		copy(nv, mapVisits)
-		mapVisits = nv
+	if site < 0 || site >= len(mapVisits) {
+		return nil // (the table is sized by ResetMapOrder; never grown here: copy/append carry race-detector hooks)
 	}
 	mapVisits[site]++
 	x := MapPermSeed ^ uint64(site)*0x9e3779b97f4a7c15 ^ uint64(mapVisits[site])*0xbf58476d1ce4e5b9
@@ -62,6 +60,9 @@ func permIndex(site int, n int) []int {
 //go:norace
 func ResetMapOrder(seed uint64) {
 	MapPermSeed = seed
+	if len(mapVisits) < len(Sites)+1 {
+		mapVisits = make([]uint32, len(Sites)+1) // called by the harness only, outside the concurrent phase
+	}
 	for i := range mapVisits {
 		mapVisits[i] = 0
 	}
